@@ -74,6 +74,9 @@ func (e *ECDSAPub) Compare(p *ECDSAPub) int {
 
 // Verify verifies signature using P-256 curve.
 func (e ECDSAPub) Verify(msg, sig []byte) error {
+	if len(sig) != 32*2 {
+		return errors.New("bad signature length")
+	}
 	h := sha256.Sum256(msg)
 	rBytes := new(big.Int).SetBytes(sig[0:32])
 	sBytes := new(big.Int).SetBytes(sig[32:64])
